@@ -22,7 +22,8 @@ ASSUMPTIONS = ["orphan payloads under a DAYS argument and the exit status are no
                "unpadded-but-strptime-parseable dates, no CRLF)"]
 
 DELTAS = ["-1", "0", "+1", "rand_old", "rand_new", "far_past", "future", "malformed", "missing",
-          "dup_old_first", "dup_new_first", "dup_bad_first_old", "dup_bad_first_new", "year9999", "year0001"]
+          "dup_old_first", "dup_new_first", "dup_bad_first_old", "dup_bad_first_new", "year9999", "year0001",
+          "nonutf8"]
 MALFORMED = ["garbage", "", "2020-13-45T00:00:00", "2021-02-30T10:00:00", "2020-01-01T00:00:00Z",
              "2020-01-01 00:00:00", "20200101T000000", "2020-01-01T25:00:00", "0000-00-00T00:00:00",
              "2020-01-01T00:00"]
@@ -82,6 +83,11 @@ def strategy_(draw, tier):
         elif dc == "missing":
             date = None
             expect_old = False
+        elif dc == "nonutf8":
+            # the info file is not valid UTF-8 (a raw latin-1 byte): its date cannot be read, it is kept -
+            # and the entries listed after it are still judged by their own dates
+            date = "nonutf8"
+            expect_old = False
         elif dc.startswith("dup_bad_first"):
             # the FIRST DeletionDate line decides: it is malformed, so the entry is kept
             # whatever a later line says
@@ -107,7 +113,8 @@ def strategy_(draw, tier):
                              dc="rand_old", kind="file", payload=True, old=True))
     return {"layout": tw.layout, "uid": tw.uid, "days": days, "now": now, "via": via, "usec": usec,
             # the world's time zone (hours east of UTC): DeletionDate and "now" are both LOCAL time
-            "tz": draw(st.sampled_from([None, None, None, 9, -8, 5.5, -3.5, 14, -12])),
+            "tz": draw(st.sampled_from([None, None, None, 9, -8, 5.5, -3.5, 14, -12, "CET-1CEST,M3.5.0,M10.5.0/3",
+                                        "EST5EDT,M3.2.0,M11.1.0"])),
             "ents": ents, "orphans": orphans, "verbose": draw(st.booleans()),
             # the readers take the volume list from $TRASH_VOLUMES when it is set (empty items allowed)
             "tv": draw(st.sampled_from([None, None, "plain", "empties"])),
@@ -125,7 +132,9 @@ def build(case):
     for e in case["ents"]:
         pv = fsenc(e["orig"]) if e["base"] is None else fsenc(e["orig"][len(e["base"].rstrip("/")) + 1:])
         d = e["date"]
-        if d is None:
+        if d == "nonutf8":
+            info = b"[Trash Info]\nPath=" + oracle.pct_encode(pv) + b"\xe9\nDeletionDate=2001-01-01T00:00:00\n"
+        elif d is None:
             info = b"[Trash Info]\nPath=" + oracle.pct_encode(pv) + b"\n"
         elif isinstance(d, (list, tuple)):
             info = (b"[Trash Info]\nPath=" + oracle.pct_encode(pv) + b"\nDeletionDate=" +
